@@ -62,6 +62,7 @@ def _template_array_features(p):
     return obj_arg, set(p.parameters) - used
 
 
+@common.guarded("C01")
 def roundtrip(text):
     """None | 'skip' | (key, detail)"""
     r = _roundtrip(text)
